@@ -1457,8 +1457,13 @@ class AstEval:
 
     async def ast_delete(self, arg):
         """Execute del statement."""
-        for arg1 in arg.targets:
-            if isinstance(arg1, ast.Subscript):
+        targets = list(arg.targets)
+        while targets:
+            arg1 = targets.pop(0)
+            if isinstance(arg1, (ast.Tuple, ast.List)):
+                # del (a, b) / del [a, b]: delete the elements left to right
+                targets[0:0] = arg1.elts
+            elif isinstance(arg1, ast.Subscript):
                 var = await self.aeval(arg1.value)
                 del var[await self.aeval(arg1.slice)]
             elif isinstance(arg1, ast.Name):
